@@ -265,6 +265,9 @@ class AioRun:
                 await counted(caller.program_coro, before, on_yield, on_throw)
         except asyncio.CancelledError as exc:
             caller.cancelled = True
+            if caller.cancel_fired_at is None and not getattr(self, "winding_down", False):
+                # nobody cancelled this caller: the cancellation it ends with was raised at it by the library (somebody else's, handed on)
+                caller.spurious_cancel = f"{type(exc).__name__} raised in {exc_info(exc).get('inner')}"
         except HarnessHang as exc:
             caller.error = {"type": "HANG", "msg": str(exc)}
         except BaseException as exc:
@@ -486,6 +489,7 @@ class AioRun:
             for p in list(self.parked):
                 if not p.fut.done():
                     p.fut.cancel()
+            self.winding_down = True
             for c in self.callers:
                 if c.task is not None and not c.task.done():
                     c.task.cancel()
